@@ -126,18 +126,25 @@ from pyvc.interp import GenVal  # noqa: E402
 descendants_of = z3.Function("descendants_of", Py, S.SeqPy)
 
 
+def descendants_term(it, m):
+    """descendants_of(m), with the unfolding of its definition (spec.descendants) on a scalar."""
+    obj = Py.mobj(m)
+    it.assume(z3.Implies(z3.Not(z3.Or(Py.is_list(obj), Py.is_dict(obj))), descendants_of(m) == S.EmptySeq))
+    return descendants_of(m)
+
+
 @call_contract("jsonpath.selectors:RecursiveDescentSelector._expand")
 def _expand_contract(it, fv, args, kwargs):
     """At call sites `_expand(match)` is the abstract sequence `descendants_of(match)`;
     the body is verified against `specs.rfc9535.descendants` under the induction hypothesis
     for the (structurally smaller) children."""
     it.assumed.append("contract:RecursiveDescentSelector._expand == spec.descendants (proved separately)")
-    return GenVal([("yieldfrom", descendants_of(it.to_term(args[1])))])
+    return GenVal([("yieldfrom", descendants_term(it, it.to_term(args[1])))])
 
 
 @call_contract("specs.rfc9535:descendants")
 def _descendants_contract(it, fv, args, kwargs):
-    return GenVal([("yieldfrom", descendants_of(it.to_term(args[0])))])
+    return GenVal([("yieldfrom", descendants_term(it, it.to_term(args[0])))])
 
 
 @contract("RecursiveDescentSelector._expand==spec", ("C01", "C03"), [M + "RecursiveDescentSelector._expand"], replay=None)
@@ -152,3 +159,41 @@ def _expand_spec(ctx):
         lambda it: it.run_function(method(sel.RecursiveDescentSelector, "_expand"), [mk_self(it), m], {}),
         lambda it: it.run_function(spec_fn(spec, "descendants"), [m], {}),
     )
+
+
+# ------------------------------------------------------------------ lemma: nothing is selected from a scalar
+
+def _register_scalar(clsname, mk):
+    cls = getattr(sel, clsname)
+
+    @contract(f"{clsname}.resolve(scalar)==[]", ("C01", "C02"), [M + f"{clsname}.resolve"], replay=("selector_replay", [clsname, "sync"]))
+    def _scalar(ctx, cls=cls, mk=mk):
+        from contracts.common import match_facts
+        from pyvc.interp import IterSpec
+
+        m = ctx.val("match")
+        ctx.require(match_facts(m), z3.Not(z3.Or(Py.is_list(Py.mobj(m)), Py.is_dict(Py.mobj(m)))))
+        ctx.inputs["matches"] = S.mk_list([m])
+        mk_self, _ = mk(ctx)
+
+        def post(o):
+            from pyvc.verify import Comparison
+
+            chunks = Comparison("x").chunks(o.trace)
+            out = [("no-exception", [], z3.BoolVal(o.kind == "return"), "resolve on a scalar must not raise")]
+            for n, c in enumerate(chunks):
+                if c[0] == "seq":
+                    if clsname == "RecursiveDescentSelector":
+                        out.append((f"t{n}", [], c[1] == z3.Unit(m), "descendant segment visits the node itself only"))
+                    else:
+                        out.append((f"t{n}", [], c[1] == S.EmptySeq, "must yield nothing"))
+                else:
+                    out.append((f"t{n}", [], z3.BoolVal(False), "loop over a scalar"))
+            return out
+
+        ctx.check_outcomes(f"{cls.__name__}.resolve(scalar)", lambda it: it.call_function(method(cls, "resolve"), [mk_self(it), [m]], {}), post)
+
+
+for _n, (_mk, _sp, _props) in SELECTORS.items():
+    if _n != "ListSelector":
+        _register_scalar(_n, _mk)
